@@ -21,9 +21,12 @@ Prog = collections.namedtuple('Prog', 'outer calls context route taint')
 CONTEXTS = ('return', 'assign', 'if', 'ifelse', 'tryfinally', 'tryexcept', 'with', 'listcomp',
             'nested', 'lambda', 'decoy_before', 'decoy_after',
             'arg_of_call', 'nested_arg_of_call', 'lambda_arg_of_call', 'nested2', 'result_attr', 'ifelse_unres',
-            'nested_ifelse_arg', 'decoy_shadow_nonlocal')
+            'nested_ifelse_arg', 'decoy_shadow_nonlocal', 'shadow_nested', 'shadow_async', 'shadow_comp')
 NESTED_CONTEXTS = ('nested', 'lambda', 'nested_arg_of_call', 'lambda_arg_of_call', 'nested2', 'nested_ifelse_arg')
 TWO_BRANCH_CONTEXTS = ('ifelse', 'ifelse_unres', 'nested_ifelse_arg')
+# the call is written with the wrapper's star names, but in a scope where those names are bound to something else (the
+# parameters of a nested function, the targets of a comprehension): nothing of the wrapper's is forwarded
+SHADOW_CONTEXTS = ('shadow_nested', 'shadow_async', 'shadow_comp')
 ROUTES = ('global', 'closure', 'attr1', 'attr2', 'method', 'param', 'partial', 'wrapsdeco')
 TAINTS_ANY = ('rebind', 'augassign', 'delrebind', 'fortarget', 'withas', 'walrus', 'starunpack', 'nonlocal',
               'importas', 'fromimportas', 'defname', 'classname', 'matchcapture', 'matchstar')
@@ -176,6 +179,15 @@ def body_lines(prog, uid):
         core = ['DECOY(1, x=2)', 'r = ' + e0]
     elif ctx == 'decoy_after':
         core = ['r = ' + e0, 'DECOY(r)']
+    elif ctx in ('shadow_nested', 'shadow_async'):
+        cs = prog.calls[0]
+        own = ', '.join((['*' + star(prog.outer, VA)] if cs.va == 'own' else []) + (['**' + star(prog.outer, VK)] if cs.vk == 'own' else []))
+        core = ['%sdef h_(%s):' % ('async ' if ctx == 'shadow_async' else '', own), '    return ' + e0, 'r = h_']
+    elif ctx == 'shadow_comp':
+        cs = prog.calls[0]
+        tg = ([star(prog.outer, VA)] if cs.va == 'own' else []) + ([star(prog.outer, VK)] if cs.vk == 'own' else [])
+        vals = (['()'] if cs.va == 'own' else []) + (['{}'] if cs.vk == 'own' else [])
+        core = ['r = [%s for %s in ((%s,),)]' % (e0, ', '.join(tg) + ',', ', '.join(vals))]
     elif ctx == 'decoy_shadow_nonlocal':
         # a helper with locals named like the wrapper's stars, rebound from a second-level helper through nonlocal:
         # Python binds nonlocal to the nearest enclosing scope, the wrapper's own stars stay pristine
@@ -284,7 +296,7 @@ def pristine(prog, j, which):
     """Does call j receive the wrapper's *pristine* star ``which`` ('va'|'vk')?"""
     cs = prog.calls[j]
     use = cs.va if which == 'va' else cs.vk
-    if use != 'own':
+    if use != 'own' or prog.context in SHADOW_CONTEXTS:
         return False
     if prog.taint and prog.taint[1] == which and prog.taint[2] == 'before' and taints(prog.taint):
         return False
